@@ -9,6 +9,29 @@ VERIF = os.path.dirname(os.path.dirname(os.path.abspath(__file__)))
 sys.path.insert(0, VERIF)
 os.environ.setdefault("PYTHONHASHSEED", "0")
 
+LEVEL_TEXT = {
+ "C01": "Seeded search over simulated end-to-end histories (real AirConditioner/LAN/protocol code, reference device as peer, simulated TCP with segmentation, unsolicited and duplicated frames, two instances, back pressure, idle periods across the 12 h expiry). Evidence, not proof: the state x schedule product is sampled; the three known-finding shapes are excluded from the verdict and reported separately.",
+ "C02": "Every frame length 0..255 is swept completely against an independent codec for 16 boundary ids and 6 boundary clocks; contents, random ids, clock jumps and retransmissions are sampled. Exploration: a clean run shows interoperability on all lengths/paddings and the sampled ids/clocks, not for every 64-bit id.",
+ "C03": "Complete single-fault enumeration per packet: every bit flip, every truncation length (both on a fresh connection and after an authentic copy was accepted) and, in the thorough tier, every position x all 255 substitutes for seven packet sizes; multi-byte and random packets sampled. The right level because the fault space per packet is finite and small.",
+ "C04": "Complete enumeration of all placements of <= 3 cut points for fixed small streams (5 in quick, 11 in thorough, both gap modes) plus seeded random streams/segmentations incl. byte-by-byte, long pauses, idle-before, and a mid-stream flush. Exploration with exhaustive small cases: off-by-one reassembly bugs show up in small streams.",
+ "C05": "Lengths 0..300 in both directions are enumerated against the independent codec; every bit of encrypted responses of lengths covering all 16 padding residues is flipped (protocol level and LAN level); counter histories of 4300/70000 packets and bursts under back pressure are run. Fault enumeration over single-bit tampering; keys are sampled.",
+ "C06": "Every listed alteration of the handshake reply (all 512 body bit flips, length changes, every other type nibble, wrong key, error packet, silence, partial-then-genuine) is enumerated in fresh, stored and stored-expired scenarios, both credential forms; keys/tokens/nonces are sampled.",
+ "C07": "Seeded search over histories of up to 10 events (sends, good/bad authentications, silence, error packets, FIN/RST, refused connects, clock jumps across both lifetimes, cancellations at drawn instants) with invariants I1-I4 evaluated over the device-side wire log, plus >65,536-packet sessions ending in an expiry and re-handshake. Exploration: histories are sampled, not enumerated.",
+ "C08": "Seeded search over reply-timing patterns around the 2 s read timeout (incl. exact ties), all single faults and all ordered fault pairs from the catalogue (sampled parameters), retry budgets 1..4, both API levels, configured connection lifetimes, a packet-counter rollover at the retransmission; each followed by a fault-free exchange judged for recovery within a bound.",
+ "C09": "Grammar-aware byzantine peer: a catalogue of structural mutations (every length/size boundary value, valid signatures/tags over hostile content, every type and pad nibble, truncations, peer-speaks-first, reply-then-close) is enumerated per phase and operation, parameters beyond the catalogue are sampled. Exploration of an unbounded input space with a complete pass over the catalogue.",
+ "C10": "Complete per-field sweeps (62 set-points x 6 modes, 128 fan bytes, 192 flag combinations, 128 humidity values, swing x freeze x power x beep) with the other fields random, plus random full states, decoded by the vendor layout on the device side. The product space is sampled; each field's own domain is covered completely.",
+ "C11": "Complete sweeps of each sensor byte x tenths digit x unit, all 32x32 set-point code pairs, all 256 values of each flag byte, body lengths 16..40, both check styles, with the remaining bytes random; compared with the vendor decode. Each byte's domain is covered completely, combinations are sampled.",
+ "C12": "Every client frame of long fault-free histories (260 operations, ~600 commands, all command classes, every property value, both capability pages, varying profiles and message-id start values) is parsed by a strict reference parser, classified by the reference device and checked for id continuity. Exploration: command parameter combinations are sampled.",
+ "C13": "For each response kind every byte position is corrupted (all 255 substitutes in thorough, 24 sampled in quick), without and with outer-checksum fix-up, alone and all-frames-corrupted, in a history where the device's data changed; attribute groups must stay put. Cases the stated validity rule cannot detect are counted as exempt.",
+ "C14": "Every truncation length of every response kind (with/without message id), every response id, every frame type, a catalogue of sub-header frames are enumerated across operations, protocol versions and placements; count/size bytes, oversized and arbitrary well-formed bodies under learned capability profiles are sampled.",
+ "C15": "Metamorphic check on real exchanges: list = in-order merge of single records, paged delivery = single delivery for the chosen split points; every known capability id x every value 0..255 (thorough) next to random neighbours, random lists incl. unknown, empty and odd-sized records.",
+ "C16": "Seeded search over setter/apply/refresh/self-clean histories for every capability profile family, with device-side store changes, lost acknowledgements and late duplicate reports; wire oracle on every apply, read-back oracle on every refresh.",
+ "C17": "All 256 appliance type bytes x letter case x reply version are enumerated; ids, ports, serials, names, inner addresses, source ports, host counts and single-host discovery are sampled. The probe itself is verified by every simulated host.",
+ "C18": "All arrival orders of the copies of <= 3 hosts x <= 2 copies are enumerated (with bad-class assignments sampled), every bad class next to good hosts in every position; larger multisets, copies at the window edge and second runs in one process are sampled.",
+ "C19": "Seeded search over accounts/passwords, token lists with near-miss ids, per-request fault sequences checked against a retry model, forced re-logins against a rotating-loginId server, and the discover -> cloud -> handshake -> refresh pipeline with 1-3 concurrent V3 hosts in either udpid byte order, optionally twice with the session dropped.",
+ "C20": "Seeded search over valid command lines (every writable setting, names in random case, values, boolean spellings, 1-3 settings) against V2/V3 devices with random settable states (some chatty), and a complete pass over a catalogue of invalid names/values alone and next to valid settings; judged by exit status, device state delta and connection attempts.",
+}
+
 props = [json.loads(l) for l in open(os.path.join(VERIF, "properties.jsonl"))]
 checks = []
 na = []
@@ -26,7 +49,7 @@ for p in props:
         "evidence_file": f"/verif/evidence/{pid}.json",
         "replay_cmd_template": f"./check {pid} --replay {{path}}",
         "engine": "simkit",
-        "level_claimed": {"category": m.LEVEL, "text": m.LEVEL_TEXT if hasattr(m, "LEVEL_TEXT") else m.RULE,
+        "level_claimed": {"category": m.LEVEL, "text": LEVEL_TEXT.get(pid, m.RULE),
                           "design_ref": f"DESIGN.md section 6 ({pid})"},
         "level_note": "; ".join(m.ASSUMPTIONS),
         "technique": getattr(m, "TECHNIQUE", "deterministic simulation with fault injection: seeded search over simulated runs (virtual-time asyncio loop, simulated TCP/UDP, reference device model as oracle)"),
